@@ -102,6 +102,11 @@ func (m *Monitor) checkInfo(w *World, pre raft.VNode, op Op, post raft.VNode) *B
 	if post.SnapIndex < pre.SnapIndex {
 		return &Bad{"C19", fmt.Sprintf("snapshot index regressed %d -> %d", pre.SnapIndex, post.SnapIndex)}
 	}
+	if post.Fsm.Index > post.CommitIndex {
+		// the state machine was fed entries beyond the commit index: also C03 (only committed commands are
+		// applied) and C07 (a dirty read would expose an uncommitted update)
+		return &Bad{"C19/C03/C07", fmt.Sprintf("last applied %d is beyond the commit index %d: uncommitted entries were applied", post.Fsm.Index, post.CommitIndex)}
+	}
 	if !(post.Fsm.Index <= post.CommitIndex && post.CommitIndex <= post.LastLogIndex) {
 		return &Bad{"C19", fmt.Sprintf("ordering lastApplied %d <= committed %d <= lastLogIndex %d violated", post.Fsm.Index, post.CommitIndex, post.LastLogIndex)}
 	}
@@ -111,6 +116,36 @@ func (m *Monitor) checkInfo(w *World, pre raft.VNode, op Op, post raft.VNode) *B
 	}
 	if post.Configs.Committed.Index > post.Configs.Latest.Index {
 		return &Bad{"C19", "committed configuration index above latest configuration index"}
+	}
+	// C03/C09 (node-local form): what the state machine holds is the replay of the node's own newest snapshot
+	// plus the update entries of its own log up to the applied index — whatever mixture of applying from the
+	// log, from the leader's queue, restoring and installing produced it
+	if post.Fsm.Index >= post.SnapIndex && post.Fsm.Index <= post.LastLogIndex {
+		var want []string
+		ok := post.SnapIndex == 0
+		for _, sf := range post.SnapsDisk {
+			if sf.Index == post.SnapIndex && post.SnapIndex > 0 {
+				want, ok = append(want, sf.Data...), true
+			}
+		}
+		if ok && post.Log.Prev <= post.SnapIndex {
+			for _, e := range post.Log.Entries {
+				if e.Index > post.SnapIndex && e.Index <= post.Fsm.Index && e.Typ == 2 {
+					want = append(want, e.Data)
+				}
+			}
+			if fmt.Sprint(want) != fmt.Sprint(post.Fsm.Applied) {
+				n := len(want)
+				if len(post.Fsm.Applied) < n {
+					n = len(post.Fsm.Applied)
+				}
+				k := 0
+				for k < n && want[k] == post.Fsm.Applied[k] {
+					k++
+				}
+				return &Bad{"C03/C09", fmt.Sprintf("state machine at applied index %d holds %d updates, replaying snapshot %d + own log gives %d (first difference at update %d)", post.Fsm.Index, len(post.Fsm.Applied), post.SnapIndex, len(want), k+1)}
+			}
+		}
 	}
 	// the configuration in force is the newest configuration entry the node holds (log, else snapshot label,
 	// else none): a configuration whose entry was overwritten must be forgotten (C19; it is also what C08's
